@@ -17,8 +17,10 @@ wt=/tmp/seedwt/$name
 rm -rf $wt; mkdir -p /tmp/seedwt
 git -C /repo worktree add -q --detach $wt HEAD || exit 2
 demo_path=$(grep -i -m1 -E "place.*at:" $src/seeded_demo.rs | sed -E 's/.*[Aa][Tt]: *//; s/ *$//')
+[ -n "${DEMO_PATH:-}" ] && demo_path=$DEMO_PATH
 runline=$(grep -i -m1 -E "run with:" $src/seeded_demo.rs | sed -E 's/.*[Ww][Ii][Tt][Hh]: *//')
 feat=""; echo "$runline" | grep -q block-boundary && feat="--features block-boundary"
+[ -n "${FEAT:-}" ] && feat="$FEAT"
 pkg="-p miniz_oxide"; echo "$demo_path" | grep -q "^miniz_oxide_test" && pkg="-p miniz_oxide_test"
 echo "$demo_path" | grep -q "^tests/" && pkg="-p miniz_oxide_c_api"
 cd $wt
